@@ -253,7 +253,9 @@ fn gen_attr_value_body(rng: &mut Rng, out: &mut String, quote: Option<char>) {
 
 pub fn gen_meta_content(rng: &mut Rng, out: &mut String) {
     // junk* "charset" ws* ("=" ws* (quoted | unquoted | eps) | junk)
-    let junk = ["text/html", ";", " ", "x", "char", "charse", "CHARSET", "\t", ";;"];
+    // non-ASCII junk matters: characters whose case mapping changes their byte length
+    // (U+0130, the Kelvin sign U+212A) shift every byte offset computed on a case-folded copy
+    let junk = ["text/html", ";", " ", "x", "char", "charse", "CHARSET", "\t", ";;", "\u{130}", "\u{212a}", "é", "ß", "\u{1c5}", "中", "\u{3a3}"];
     for _ in 0..rng.small(3) {
         out.push_str(rng.pick_str(&junk));
     }
